@@ -98,6 +98,24 @@ def sstep (W0 : World) (st : SState) (op : SOp) : SState × String :=
     | .legacy p sg => ({ st with md := .legacy p (.list (some (corruptNth (sigList sg) i false))) }, "ok")
     | .dsse pt pl sg p => ({ st with md := .dsse pt pl (.list (some (corruptNth (sigList sg) i true))) p }, "ok")
 
+/-- content that cannot be represented in canonical JSON: a non-integral number in a by-product
+    of a link (layouts have no field of arbitrary JSON type) -/
+def setFracP (p : Payload) : Payload :=
+  match p with
+  | .link v => .link (fset v (lit% "byproducts") (.map (some [(lit% "frac", .any (.frac (lit% "0.5")))])))
+  | .layout v => .layout v
+
+/-- an attempt to put such content into the metadata object: an envelope REFUSES it (`SetPayload`
+    returns an error and the envelope keeps its payload, payload bytes and signatures); a Metablock
+    is a plain struct — the assignment goes through and every later signing fails -/
+def trySetFrac (st : SState) : SState × String :=
+  match st.md with
+  | .dsse _ _ _ p =>
+    match setPayload (setFracP p) with
+    | .ok m => ({ st with md := m }, "ok:changed")
+    | _ => (st, "err:same")
+  | .legacy p sg => ({ st with md := .legacy (setFracP p) sg }, "ok:struct")
+
 def run (W0 : World) : SState → List SOp → SState × List String
   | st, [] => (st, [])
   | st, op :: ops =>
